@@ -834,7 +834,9 @@ Section StableSort.
     { intros i Hi. rewrite Forall_forall in Hn. apply Hn. apply nth_In. exact Hi. }
     assert (Hadj : adjR le (argsort_stable l)).
     { unfold argsort_stable, sort_by. fold le. apply (sort_by_adj_aux le P).
-      - intros a b Ha Hb. unfold le. rewrite key_le_notnan by auto. apply (ord_total _ ord); auto.
+      - intros a b Ha Hb. unfold le.
+        rewrite (key_le_notnan _ _ (HnP a Ha) (HnP b Hb)), (key_le_notnan _ _ (HnP b Hb) (HnP a Ha)).
+        apply (ord_total _ ord); auto.
       - rewrite Forall_forall. intros i Hi. apply in_seq in Hi. unfold P. lia.
       - constructor.
       - exact I. }
@@ -847,3 +849,17 @@ Section StableSort.
     split; [|apply IH; auto]. unfold le in Hab. rewrite key_le_notnan in Hab by auto. exact Hab.
   Qed.
 End StableSort.
+
+(* ------------------------------------------------------------------------------------------ *)
+(* statements in the form Props/C12.v quotes *)
+
+Theorem fc_hull_clean {N : Num} (sorter : list (T N) -> list nat) (score : list nat -> list (T N)) (hull : list nat)
+  (sdist : nat -> nat -> T N) (xs : list (T N)) (labels knees : list nat) :
+  (forall l, Permutation (sorter l) (seq 0 (length l))) ->
+  labels_ok labels knees = true -> strictly_increasing knees = true -> 2 <= length knees ->
+  exists res, filter_clusters sorter score hull sdist xs MHull labels knees = Some res /\
+              hull_ok_b hull labels knees res = true.
+Proof.
+  intros Hp Hl Hs H2. apply (fc_hull_thm sorter score hull sdist xs Hp MHull labels knees Hl Hs H2); [|reflexivity].
+  intros H. discriminate.
+Qed.
